@@ -390,10 +390,15 @@ def r5(run, project):
     if sc is None:
         raise AnalysisError("C03: SizeConstraint.set_constraint not found")
     ant = [c for c in walk_no_nested(sc) if isinstance(c, ast.Call) and isinstance(c.func, ast.Attribute) and c.func.attr == "bytes_parsed"]
-    ok = len(ant) == 1 and any(k.arg == "anticipate_only" and isinstance(k.value, ast.Constant) and k.value.value is True for k in ant[0].keywords) \
-        and [norm(a) for a in ant[0].args] == ["self.constraint_path", "self.size_max"]
+    ok = len(ant) == 1 and isinstance(getattr(ant[0], "_parent", None), ast.YieldFrom) \
+        and any(k.arg == "anticipate_only" and isinstance(k.value, ast.Constant) and k.value.value is True for k in ant[0].keywords) \
+        and len(ant[0].args) == 2 and norm(ant[0].args[0]) in ("self.constraint_path", sc.args.args[1].arg) \
+        and norm(ant[0].args[1]) in ("self.size_max", sc.args.args[2].arg) \
+        and not any(isinstance(n, ast.Name) and isinstance(n.ctx, ast.Store) and n.id in (sc.args.args[1].arg, sc.args.args[2].arg)
+                    for n in walk_no_nested(sc))
     run.ob("R5", ok, "arming anticipates the new size against the enclosing regions",
-           "set_constraint no longer calls bytes_parsed(self.constraint_path, self.size_max, anticipate_only=True)", module=cm,
+           "set_constraint no longer runs `yield from <enclosing regions>.bytes_parsed(self.constraint_path, self.size_max, anticipate_only=True)` "
+           "(a generator that is created but not iterated checks nothing)", module=cm,
            node=sc, func="SizeConstraint.set_constraint", construct="anticipation call")
     flt = [g for g in walk_no_nested(sc) if isinstance(g, ast.GeneratorExp)]
     ok = len(flt) == 1 and norm(flt[0].generators[0].iter) == sc.args.args[3].arg and len(flt[0].generators[0].ifs) == 1 and \
@@ -406,12 +411,29 @@ def r5(run, project):
            func="SizeConstraint.set_constraint", construct="arming stores")
     # bytes_parsed: counts when not anticipating; assert_done closes
     bp = cm.functions().get("SizeConstraint.bytes_parsed")
-    aug = [s for s in walk_no_nested(bp) if isinstance(s, ast.AugAssign) and norm(s.target) == "self.size_already"]
-    ok = len(aug) == 1 and isinstance(aug[0].op, ast.Add) and norm(aug[0].value) == bp.args.args[2].arg and \
-        isinstance(aug[0]._parent, ast.If) and norm(aug[0]._parent.test) == "not anticipate_only"
-    run.ob("R5", ok, "a real charge adds the field's size to the bytes counted so far",
-           "size_already is no longer increased by `size` exactly when not anticipating", module=cm, node=bp,
-           func="SizeConstraint.bytes_parsed", construct="size_already accounting")
+    if bp is None:
+        raise AnalysisError("C03: SizeConstraint.bytes_parsed not found")
+    size_p, ant_p = bp.args.args[2].arg, bp.args.args[3].arg
+    from .. import paths
+    n_paths = 0
+    for pa in paths.summarise(cm, bp):
+        writes = [norm(e) for k, e, _n in pa.effects if k == "store" and "self.size_already" in norm(e).split("=")[0]]
+        ant = pa.truth(f"truthy {ant_p}")
+        lab = " & ".join(("" if v else "not ") + a for a, v, _ in pa.cond) or "always"
+        if pa.end == "raise":
+            ok, want = not writes, "nothing"
+        elif ant is True:
+            ok, want = not writes, "nothing (anticipation only looks ahead)"
+        elif ant is False:
+            ok, want = writes == [f"self.size_already += {size_p}"], f"self.size_already += {size_p}, once"
+        else:
+            ok, want = False, f"a decision on {ant_p}"
+        n_paths += 1
+        run.ob("R5", ok, f"bytes_parsed [{lab}]: size_already accounting",
+               f"size_already is no longer increased by `{size_p}` exactly when not anticipating: on the path [{lab}] (ends in {pa.end}) "
+               f"the writes are {writes}, required: {want}", module=cm, node=pa.node or bp, func="SizeConstraint.bytes_parsed",
+               construct="size_already accounting")
+    run.require(n_paths >= 5, f"C03: only {n_paths} paths through SizeConstraint.bytes_parsed")
     ad = cm.functions().get("SizeConstraint.assert_done")
     obs = [s for s in walk_no_nested(ad) if isinstance(s, ast.Assign) and norm(s.targets[0]) == "self.is_obsolete"]
     run.ob("R5", len(obs) == 1 and norm(obs[0].value) == "True", "closing retires the region", "assert_done does not retire the region",
@@ -454,10 +476,18 @@ def r6(run, project):
                 operands = list(node.values)
             elif isinstance(node, ast.UnaryOp) and isinstance(node.op, ast.Not):
                 operands = [node.operand]
-            for o in operands:
+            def is_count(o):
                 if isinstance(o, (ast.Name, ast.Attribute)):
+                    return norm(o) in counts
+                if isinstance(o, ast.BinOp) and isinstance(o.op, (ast.Add, ast.Sub)):
+                    return any(norm(x) in counts for x in ast.walk(o))
+                if isinstance(o, ast.IfExp):   # e.g. an expanded property `None if limit is None else limit - counted`
+                    return is_count(o.body) or is_count(o.orelse)
+                return False
+            for o in operands:
+                if isinstance(o, (ast.Name, ast.Attribute, ast.BinOp, ast.IfExp)):
                     n += 1
-                    bad = norm(o) in counts
+                    bad = is_count(o)
                     run.ob("R6", not bad, f"SizeConstraint.{m.name} L{o.lineno}: `{norm(o)}` in boolean context is not a byte count",
                            f"`{norm(o)}` is a byte count / limit (None = not armed, 0 = region exactly full) and is tested by truthiness: a "
                            "region with 0 bytes left is treated like an unarmed one, so a field starting exactly at the region's end "
